@@ -190,6 +190,9 @@ func runWorld(line string) string {
 // desired name, no Failed pod outside the desired set under OrderedReady), plus a share that does not.
 func genWorldCase(rng *rand.Rand) *syCase {
 	c := genSyCase(rng)
+	for c.claims { // the world engine has no claims mode (names and hashes of the case depend on the template)
+		c = genSyCase(rng)
+	}
 	c.fuid, c.fdel = 1, c.del // the world engine starts from cache = API
 	if rng.Intn(5) != 0 {
 		c.paused, c.selOk, c.del, c.fuid, c.fdel = 0, true, false, 1, false
